@@ -3,4 +3,5 @@ SPECIFICATION Spec
 INVARIANT Agreement
 INVARIANT ChainShape
 INVARIANT VoteOnce
+INVARIANT TimerLive
 PROPERTY Monotone
